@@ -440,6 +440,23 @@ fn layout_probe<A: 'static, const S: usize>(aname: &str) {
         if (&*c as *const Pay<A, S> as usize) % align != 0 || (&*c as *const Pay<A, S> as usize) - s2.box_addr != offset {
             problems.push("cyclic-layout".into());
         }
+        // the pointer must lead to the value the closure returned (a wrapper around the value under construction
+        // must not shift it)
+        if &c.canary != b"C0FFEE!!" || (S > 0 && (c.bytes[0] != 0xAB || c.bytes[S - 1] != 0xAB)) {
+            problems.push("cyclic-corrupt".into());
+        }
+        let c2 = c.clone();
+        if &*c2 as *const Pay<A, S> as usize != &*c as *const Pay<A, S> as usize || &c2.canary != b"C0FFEE!!" {
+            problems.push("cyclic-clone".into());
+        }
+        drop(c2);
+        let blk2 = alloc::block_at(s2.box_addr);
+        if let Some(b2) = blk2 {
+            let a2 = &*c as *const Pay<A, S> as usize;
+            if a2 < s2.box_addr || a2 + size > s2.box_addr + b2.size {
+                problems.push("cyclic-outside-box".into());
+            }
+        }
         drop(c);
         if alloc::is_live(s2.box_addr) {
             problems.push("cyclic-not-freed".into());
@@ -734,6 +751,87 @@ thread_local! {
     static KEEP: RefCell<Vec<Cc<TNode>>> = const { RefCell::new(Vec::new()) };
 }
 
+/// A node whose finalizer allocates (and drops) a `Cc` and asks for a collection — all of which the documentation allows.
+struct FNode {
+    next: RefCell<Option<Cc<FNode>>>,
+    canary: Cell<u64>,
+}
+unsafe impl Trace for FNode {
+    fn trace(&self, ctx: &mut Context<'_>) {
+        self.next.trace(ctx);
+    }
+}
+impl Finalize for FNode {
+    fn finalize(&self) {
+        let t = Cc::new(TNode { next: RefCell::new(None), canary: Cell::new(0xA11CE) });
+        let u = t.clone();
+        drop(u);
+        drop(t);
+        collect_cycles();
+    }
+}
+impl Drop for FNode {
+    fn drop(&mut self) {
+        if self.canary.get() != 0xA11CE {
+            DOUBLE_DROPS.fetch_add(1, std::sync::atomic::Ordering::SeqCst);
+        }
+        self.canary.set(0xDEAD);
+    }
+}
+thread_local! {
+    static KEEPF: RefCell<Vec<Cc<FNode>>> = const { RefCell::new(Vec::new()) };
+}
+fn fnode() -> Cc<FNode> {
+    Cc::new(FNode { next: RefCell::new(None), canary: Cell::new(0xA11CE) })
+}
+/// Configurations under which the allocating finalizer runs at thread exit.
+fn tcfg(which: usize) {
+    #[cfg(feature = "auto")]
+    {
+        let _ = rust_cc::config::config(|c| match which {
+            1 => {
+                c.set_auto_collect(true);
+                c.set_buffered_objects_threshold(std::num::NonZeroUsize::new(1));
+            }
+            2 => {
+                c.set_auto_collect(true);
+                c.set_buffered_objects_threshold(std::num::NonZeroUsize::new(1));
+                c.set_adjustment_percent(0.0);
+            }
+            3 => c.set_auto_collect(false),
+            _ => {}
+        });
+    }
+    #[cfg(not(feature = "auto"))]
+    let _ = which;
+}
+fn fin_scenario(user_first: bool, cfg: usize, shape: usize) {
+    if user_first {
+        KEEPF.with(|k| k.borrow_mut().clear());
+    } else {
+        // the collector's thread-locals first
+        drop(tnode());
+        let _ = rust_cc::state::allocated_bytes();
+        collect_cycles();
+    }
+    tcfg(cfg);
+    let a = fnode();
+    match shape {
+        1 => {
+            let b = a.clone();
+            drop(b);
+        }
+        2 => {
+            let b = fnode();
+            *a.next.borrow_mut() = Some(b.clone());
+            *b.next.borrow_mut() = Some(a.clone());
+            drop(b);
+        }
+        _ => {}
+    }
+    KEEPF.with(|k| k.borrow_mut().push(a));
+}
+
 fn tnode() -> Cc<TNode> {
     Cc::new(TNode { next: RefCell::new(None), canary: Cell::new(0xA11CE) })
 }
@@ -808,6 +906,22 @@ pub fn teardown() {
         let r = std::thread::spawn(f).join();
         let dd = DOUBLE_DROPS.load(std::sync::atomic::Ordering::SeqCst) - before;
         println!("teardown {} {} double_drops={}", name, if r.is_ok() { "ok" } else { "PANICKED" }, dd);
+    }
+    // a thread-local holding objects whose finalizer allocates and collects, destroyed before / after the collector's own
+    // thread-locals, under every trigger configuration (a panic inside a thread-local destructor aborts the process: the
+    // runner reports the missing `teardown done`)
+    for user_first in [true, false] {
+        for cfg in 0..4usize {
+            for shape in 0..3usize {
+                let before = DOUBLE_DROPS.load(std::sync::atomic::Ordering::SeqCst);
+                use std::io::Write;
+                print!("teardown fin/{}/cfg{}/shape{} ", if user_first { "user-tls-first" } else { "collector-first" }, cfg, shape);
+                let _ = std::io::stdout().flush();
+                let r = std::thread::spawn(move || fin_scenario(user_first, cfg, shape)).join();
+                let dd = DOUBLE_DROPS.load(std::sync::atomic::Ordering::SeqCst) - before;
+                println!("{} double_drops={}", if r.is_ok() { "ok" } else { "PANICKED" }, dd);
+            }
+        }
     }
     println!("teardown done");
 }
